@@ -26,7 +26,7 @@ P = {
          "All intervals of the 3 kinds over a chain realising every order type of <=4 bounds + probe, all ordered pairs and probes, 7 element types: decides the property for every totally ordered element type.", "4/C07, 5"),
  "C08": ("bounded-exhaustive enumeration of sequences x all merge trees, whole-type windows (bf16/f16) and long run-length patterns vs exact rational sums",
          "Every short sequence over a cancellation-forcing alphabet in f64/f32/f16/bf16 through every binary merge tree; all value pairs/triples of tiny float types in an exponent window; run-length patterns up to 1e7 terms and merge chains up to 1e6 registers; error judged against (8u+8nu^2)*sum|x| from exact sums.", "4/C08"),
- "C09": ("explicit-state BFS over real accumulator registers (operation histories) + loom exploration of all schedules of a 3-thread reduce",
+ "C09": ("explicit-state BFS over real accumulator registers (operation histories), cross-checked state for state against stateright on the same model + loom exploration of all schedules of a 3-thread reduce",
          "BFS over all histories of new/append/extend/from_iter/clone/+/+=/query on pools of real registers for all 8 state types, invariant on every state against the model multiset and the real batch computation; long histories (up to 2e5 observations as left/right folds and balanced reductions) and every bulk size around powers of two; loom explores every interleaving of a caller-side parallel reduce and all merge orders.", "4/C09"),
  "C10": ("bounded-exhaustive enumeration of producers x inputs x all ordered level pairs x kinds; relational oracle on returned bounds",
          "For every producer and every enumerated input (incl. streaming states beyond the t->normal switch), all pairs of levels on the grid and all three kinds: one-sided(L) vs two-sided(2L-1) coincidence, nesting in the level, containment of the point estimate, kind/shape of the result; plus call-order independence (forward/reverse/stride orders and a fresh thread must agree bit for bit).", "4/C10"),
@@ -86,6 +86,8 @@ m = {
          "kind_free_text": "hand-rolled bounded-exhaustive enumerators and explicit-state BFS over the real stats-ci API (Rust, rayon), exact-rational and independent distribution oracles self-tested against committed mpmath tables"},
         {"name": "loom", "path": "/verif/harness/vloom", "serves_properties": ["C09"],
          "kind_free_text": "loom 0.7.2 controlled scheduler: all interleavings (no preemption bound) of a 3-thread caller-side parallel reduce, two harness shapes x three state types"},
+        {"name": "stateright", "path": "/verif/harness/vsr", "serves_properties": ["C09"],
+         "kind_free_text": "stateright 0.31.0 breadth-first checker over the same pool model of real accumulator registers (8 state types): invariant on every reached state, and its unique-state counts must equal those of the hand-rolled explorer for the same bound (a mismatch is a machinery error)"},
     ],
     "checks": checks,
     "not_applicable": na,
